@@ -1,6 +1,7 @@
 import YgmVerif.Model.DistComm
 import YgmVerif.Model.ArrayOps
 import YgmVerif.Model.BagOps
+import YgmVerif.Model.Cache
 /-
 The remaining containers as instances of `Dist.Container`, so that they can be RUN OVER the joint messaging model
 `YgmVerif.Comm` by `Model/DistComm.lean` (a container operation is a message; the memory of a rank changes only at
@@ -11,6 +12,21 @@ The remaining containers as instances of `Dist.Container`, so that they can be R
   that nothing is true only because a trap was totalised away.  `apply` CALLS `ArrayOps.deliver`.
 * bag (`Model/BagOps.lean`): the state of a rank is `m_local_bag`; the remote lambda appends the shipped items
   (the per-rank part of `BagOps.deliver`); the destination is a field of the message (round robin or chosen).
+
+* counting_set (`Model/Cache.lean`), namespace `YgmVerif.CSetComm`: the PRODUCT of the joint messaging model `Comm` with one
+  count cache (`Cache.St Nat`, configuration `Cache.csetCfg`) per rank.  The component step functions are CALLED as they
+  are (`Comm.run`, `Cache.step`); this file only says which component labels a joint label consists of:
+      ins r k first   `async_insert(k)` on rank r = Cache `ins k 1`  (+ `Comm.regcb r` iff no callback was registered)
+      pack r uid      Cache `pack` on r = `Comm.async r uid (owner key) false`   — the packed message IS the async
+      cbpack r uid    Cache `pack` inside the flush-all callback = `Comm.runcb r [(uid, owner key, false)] 1`
+      ret r / done r  Cache `ret` / `done` alone
+      fb r            the pre-barrier callback begins: Cache `fb` = `Comm.runcb r [] 1`
+      fe r            ... returns: Cache `fe` = `Comm.runcb r [] 0`
+      comm l          every other `Comm` label alone (send, receive, forward, handler begin / end, barrier steps)
+  A callback during whose sends handlers run is the chain `fb, cbpack, …, fe` of `runcb` steps each of which
+  re-registers its continuation (`j = 1`) except the last: between them `execBegin … execEnd` and inserts from the
+  handler are accepted, and `BarrierME` sees a pending callback throughout (no reduction round can be started).
+  The joint guard ties the content of a packed message to the cache: `Cache.pending = some (opOf uid)`.
 
 Executable, core Lean only.
 -/
@@ -43,3 +59,122 @@ def bagOwner {α : Type} (m : BagOps.Msg α) : Nat := m.dest
 def bagInit {α : Type} (b : BagOps.Bag α) (r : Nat) : List α := b.bags.getD r []
 
 end YgmVerif.ContainersComm
+
+namespace YgmVerif.CSetComm
+open YgmVerif
+
+/-- the owner side of counting_set: `m_map.async_visit(key, count += to_add, cached_count)`; the map of a rank as a
+function key ↦ count (absent = 0) -/
+def cntContainer : Dist.Container (Nat → Nat) (Cache.Msg Nat) Unit :=
+  ⟨fun st m => ((fun k => if m.key = k then st k + m.val else st k), [], [])⟩
+
+/-- parameters: ranks, cache slots, routing, key partitioner, and which message each uid carries -/
+structure Par where
+  n : Nat
+  nslots : Nat
+  nh : Nat → Nat → Nat
+  owner : Nat → Nat
+  opOf : Nat → Cache.Msg Nat
+
+inductive Label where
+  | comm (l : Comm.Label)
+  | ins (r k : Nat) (first : Bool)
+  | pack (r uid : Nat)
+  | cbpack (r uid : Nat)
+  | ret (r : Nat)
+  | done (r : Nat)
+  | fb (r : Nat)
+  | fe (r : Nat)
+  deriving Repr
+
+structure St where
+  c : Comm.St
+  k : Nat → Cache.St Nat
+
+def init : St := { c := Comm.init, k := fun _ => Cache.St.init }
+
+/-- `Comm` labels that may occur on their own: everything except issuing a message and the callback steps, which only
+occur as the `Comm` side of a cache label -/
+def allowed : Comm.Label → Bool
+  | .async .. => false
+  | .regcb _ => false
+  | .runcb .. => false
+  | _ => true
+
+/-- the messaging part of a joint label -/
+def projC (P : Par) : Label → List Comm.Label
+  | .comm l => [l]
+  | .ins r _ first => if first then [.regcb r] else []
+  | .pack r uid => [.async r uid (P.owner (P.opOf uid).key) false]
+  | .cbpack r uid => [.runcb r [(uid, P.owner (P.opOf uid).key, false)] 1]
+  | .ret _ => []
+  | .done _ => []
+  | .fb r => [.runcb r [] 1]
+  | .fe r => [.runcb r [] 0]
+
+/-- the cache part of a joint label: (rank, label of `Cache.step`) -/
+def projK : Label → Option (Nat × Cache.Label Nat)
+  | .comm _ => none
+  | .ins r k _ => some (r, .ins k 1)
+  | .pack r _ => some (r, .pack)
+  | .cbpack r _ => some (r, .pack)
+  | .ret r => some (r, .ret)
+  | .done r => some (r, .done)
+  | .fb r => some (r, .fb)
+  | .fe r => some (r, .fe)
+
+def topIsFall : List (Cache.Frame Nat) → Bool
+  | .fall _ _ :: _ => true
+  | _ => false
+
+/-- the joint part of the guard (everything else is checked by the component steps) -/
+def guard (P : Par) (S : St) : Label → Bool
+  | .comm l => allowed l
+  | .ins r _ first => decide (r < P.n) && (first == !(S.k r).reg)
+  | .pack r uid => decide (r < P.n) && (Cache.pending (S.k r) == some (P.opOf uid))
+  | .cbpack r uid => decide (r < P.n) && (Cache.pending (S.k r) == some (P.opOf uid)) && topIsFall (S.k r).stack
+  | .ret r => decide (r < P.n)
+  | .done r => decide (r < P.n)
+  | .fb r => decide (r < P.n)
+  | .fe r => decide (r < P.n)
+
+/-- the cache side of a joint step: `Cache.step` of the rank's cache, all other caches untouched -/
+def kStep (P : Par) (S : St) (l : Label) : Option (Nat → Cache.St Nat) :=
+  match projK l with
+  | none => some S.k
+  | some (r, lab) => (Cache.step (Cache.csetCfg P.nslots) (S.k r) lab).map (fun s' => Barrier.upd S.k r s')
+
+/-- one joint step; `none` = not enabled (the joint guard or a guard of one of the component steps fails) -/
+def step (P : Par) (S : St) (l : Label) : Option St :=
+  if guard P S l then
+    match Comm.run P.n P.nh S.c (projC P l), kStep P S l with
+    | some c', some k' => some { c := c', k := k' }
+    | _, _ => none
+  else none
+
+def run (P : Par) (S : St) : List Label → Option St
+  | [] => some S
+  | l :: ls => match step P S l with
+    | none => none
+    | some S' => run P S' ls
+
+/-- the `Cache` history of rank r -/
+def projR (r : Nat) (jls : List Label) : List (Cache.Label Nat) :=
+  jls.filterMap (fun l => match projK l with
+    | some (q, lab) => if q = r then some lab else none
+    | none => none)
+
+/-- (rank, key) of every `async_insert` of the history, in order -/
+def insList (jls : List Label) : List (Nat × Nat) :=
+  jls.filterMap (fun l => match l with
+    | .ins r k _ => some (r, k)
+    | _ => none)
+
+/-- (rank, uid) of every packed message of the history, in order -/
+def sentList (jls : List Label) : List (Nat × Nat) :=
+  jls.filterMap (fun l => match l with
+    | .pack r uid => some (r, uid)
+    | .cbpack r uid => some (r, uid)
+    | _ => none)
+
+end YgmVerif.CSetComm
